@@ -51,6 +51,10 @@ def harness(c: sym.Ctx, case: Dict[str, Any]) -> None:
         if n > 0:
             c.cover("budget_not_reached" if bool(mf >= 1) else "budget_disabled")
     c.check(ret in (-1, None, "<running>"), "return_value_domain", ret=ret)
+    # only *unexpected* exits consume the budget: every failure restart the manager handles answers an exit the environment caused
+    # (a process the manager terminated itself - reload-all, replacement - is not an unexpected exit)
+    deaths = sum(1 for e in tr.ev if e[1] == "env" and e[2] == "death")
+    c.check(n <= deaths, "only_unexpected_exits_consume_the_budget", handled_failure_restarts=n, unexpected_exits=deaths)
     # per tick bookkeeping
     by_tick: Dict[int, List[Any]] = {}
     for e in tr.ev:
